@@ -177,6 +177,11 @@ def check_session(run, scn, actor=0, model=None, relaxed_from=None):
                 if exp[2] not in full and not relaxed:
                     probs.append(P('reason-missing', '%s raised %s without the device\'s reason %r: %r' % (where, rec['exc'], exp[2][:60], full[:120])))
             continue
+        if op['op'] == 'pull' and op.get('dest') == 'failing' and rec.get('dest_raised'):
+            # the local destination failed (disk full): the call must surface that error (or the one met while closing)
+            if rec['ok']:
+                probs.append(P('missing-exception', '%s returned normally although the destination raised OSError' % where))
+            continue
         if exp[0] == 'push':
             # did the device answer FAIL during this call? (ground truth, not a re-derivation of the chunking)
             failed = [a for a in dev.push_attempts if rec['t0'] <= a['t0'] <= rec.get('t1', rec['t0']) and a.get('fail') is not None and (len(run.results) <= 1 or dev.all_streams[a['stream']].opener == actor)]
